@@ -16,7 +16,9 @@ package mcp
 import (
 	"context"
 	"encoding/json"
+	"errors"
 	"fmt"
+	"iter"
 	"math/rand"
 	"net/http"
 	"os"
@@ -82,6 +84,67 @@ func (c sxHookCtx) Value(k any) any {
 
 const sxRaceHeader = "X-Verif-Close-Unpublished"
 
+// sxStore is the fault-injecting collaborator: an EventStore (backed by the real MemoryEventStore)
+// whose methods fail while the corresponding flag is set by a `fault` op:
+//   c SessionClosed   o Open of the standalone stream (i.e. Transport.Connect)   O Open of a request's
+//   stream   a Append   r After (replay)
+// SessionClosed is the only way the close of a streamable server connection can report an error:
+// streamableServerConn.Close returns it, jsonrpc2 keeps it as closeErr, conn.Close() hands it to
+// ServerSession.Close.
+type sxStore struct {
+	inner *MemoryEventStore
+	mu    sync.Mutex
+	fail  map[byte]bool
+}
+
+var errSxStore = errors.New("verif: event store backend unavailable")
+
+func (s *sxStore) failing(c byte) bool {
+	s.mu.Lock()
+	defer s.mu.Unlock()
+	return s.fail[c]
+}
+
+func (s *sxStore) set(flags string) {
+	s.mu.Lock()
+	defer s.mu.Unlock()
+	s.fail = map[byte]bool{}
+	for i := 0; i < len(flags); i++ {
+		if flags[i] != '-' {
+			s.fail[flags[i]] = true
+		}
+	}
+}
+
+func (s *sxStore) Open(ctx context.Context, sessionID, streamID string) error {
+	if (streamID == "" && s.failing('o')) || (streamID != "" && s.failing('O')) {
+		return errSxStore
+	}
+	return s.inner.Open(ctx, sessionID, streamID)
+}
+
+func (s *sxStore) Append(ctx context.Context, sessionID, streamID string, data []byte) error {
+	if s.failing('a') {
+		return errSxStore
+	}
+	return s.inner.Append(ctx, sessionID, streamID, data)
+}
+
+func (s *sxStore) After(ctx context.Context, sessionID, streamID string, index int) iter.Seq2[[]byte, error] {
+	if s.failing('r') {
+		return func(yield func([]byte, error) bool) { yield(nil, errSxStore) }
+	}
+	return s.inner.After(ctx, sessionID, streamID, index)
+}
+
+func (s *sxStore) SessionClosed(ctx context.Context, sessionID string) error {
+	err := s.inner.SessionClosed(ctx, sessionID) // the store forgets the session all the same
+	if s.failing('c') {
+		return errSxStore
+	}
+	return err
+}
+
 type sxAsync struct {
 	tag    string // p<slot> (slow POST), d<n> (DELETE), c<n> (server-side close), q<n> (other request)
 	rec    *sxRec
@@ -114,6 +177,7 @@ type sxWorld struct {
 	nasync  int
 	reqID   int
 	stateless bool
+	store   *sxStore // nil: no EventStore configured
 }
 
 func sxUserID(u string) (tok string, present bool) {
@@ -126,8 +190,11 @@ func sxUserID(u string) (tok string, present bool) {
 	return "tok-" + u, true
 }
 
-func newSxWorld(stateless bool, timeoutMS int) *sxWorld {
+func newSxWorld(stateless bool, timeoutMS int, withStore bool) *sxWorld {
 	w := &sxWorld{names: map[string]int{}, byOrd: map[int]string{}, slots: map[int]chan struct{}{}, stateless: stateless}
+	if withStore {
+		w.store = &sxStore{inner: NewMemoryEventStore(nil), fail: map[byte]bool{}}
+	}
 	w.server = NewServer(&Implementation{Name: "verif", Version: "1"}, nil)
 	orig := w.server.opts.GetSessionID
 	w.server.opts.GetSessionID = func() string {
@@ -175,8 +242,11 @@ func newSxWorld(stateless bool, timeoutMS int) *sxWorld {
 			return next(ctx, method, req)
 		}
 	})
-	w.h = NewStreamableHTTPHandler(func(*http.Request) *Server { return w.server },
-		&StreamableHTTPOptions{Stateless: stateless, SessionTimeout: time.Duration(timeoutMS) * time.Millisecond})
+	hopts := &StreamableHTTPOptions{Stateless: stateless, SessionTimeout: time.Duration(timeoutMS) * time.Millisecond}
+	if w.store != nil {
+		hopts.EventStore = w.store
+	}
+	w.h = NewStreamableHTTPHandler(func(*http.Request) *Server { return w.server }, hopts)
 	verifier := func(ctx context.Context, token string, req *http.Request) (*auth.TokenInfo, error) {
 		if !strings.HasPrefix(token, "tok-") {
 			return nil, auth.ErrInvalidToken
@@ -443,10 +513,11 @@ func (w *sxWorld) apply(toks []string) (obs string) {
 			head = "pending -"
 		}
 		w.pend = append(w.pend, a)
-		if kind == "notif" && (ref == "-" || w.stateless) {
-			// The session is closed as soon as this POST returns (failed-initialize cleanup, or the
-			// temporary session of a stateless endpoint) while the notification is still on its way to
-			// the handler: whether the handler runs is a race in the code under test. Not observed.
+		if kind == "notif" && ref == "-" && !w.stateless {
+			// The session is closed as soon as this POST returns (failed-initialize cleanup) while the
+			// notification is still on its way to the handler: whether the handler runs is a race in the
+			// code under test. Not observed.  (The temporary session of a stateless endpoint handles what
+			// it was given before the POST is acknowledged: observed.)
 			w.mu.Lock()
 			w.log = nil
 			w.mu.Unlock()
@@ -527,16 +598,32 @@ func (w *sxWorld) apply(toks []string) (obs string) {
 		a := &sxAsync{tag: fmt.Sprintf("c%d", w.nasync), rec: &sxRec{hdr: http.Header{}, status: 1}, done: make(chan struct{})}
 		go func() {
 			defer close(a.done)
-			target.Close()
+			if err := target.Close(); err != nil {
+				// Close reports what closing the connection reported (here: the event store's error)
+				a.rec.mu.Lock()
+				a.rec.status = 2
+				a.rec.mu.Unlock()
+			}
 		}()
 		synctest.Wait()
 		if a.finished() {
 			a.seen = true
 			head = "ok -"
+			if st, _ := a.rec.result(); st == 2 {
+				head = "err -"
+			}
 		} else {
 			head = "pending -"
 		}
 		w.pend = append(w.pend, a)
+	case "fault":
+		// the event store's methods named by the flags fail from now on ("-": none)
+		if w.store == nil {
+			head = "noop -"
+		} else {
+			w.store.set(toks[1])
+			head = "ok -"
+		}
 	default:
 		return "bad-op"
 	}
@@ -592,6 +679,8 @@ type sxSess struct {
 type sxGen struct {
 	rng       *rand.Rand
 	stateless bool
+	es        bool // the handler has the fault-injecting EventStore
+	flags     string // what the event store currently fails
 	timeout   int
 	now       int
 	sess      []*sxSess
@@ -656,6 +745,55 @@ func (g *sxGen) target(allowNone bool) (ref, user, cls string) {
 	return ref, s.owner, "own"
 }
 
+// faultOp scripts the event store: mostly SessionClosed (the error that closing a connection
+// reports), alone or together with the other methods, and back to healthy.
+func (g *sxGen) faultOp() (string, []string) {
+	flags := ""
+	switch r := g.rng.Intn(100); {
+	case r < 38:
+		flags = "c"
+	case r < 52:
+		flags = "-"
+	case r < 61:
+		flags = "cO"
+	case r < 68:
+		flags = "O"
+	case r < 74:
+		flags = "o"
+	case r < 79:
+		flags = "co"
+	case r < 84:
+		flags = "r"
+	case r < 88:
+		flags = "a"
+	case r < 92:
+		flags = "ca"
+	default:
+		for _, c := range "coOar" {
+			if g.rng.Intn(2) == 0 {
+				flags += string(c)
+			}
+		}
+		if flags == "" {
+			flags = "-"
+		}
+	}
+	g.flags = flags
+	return "fault " + flags, sxFaultTags(flags)
+}
+
+func sxFaultTags(flags string) []string {
+	t := []string{"fault"}
+	for _, c := range flags {
+		if c == '-' {
+			t = append(t, "fault-none")
+		} else {
+			t = append(t, "fault-"+string(c))
+		}
+	}
+	return t
+}
+
 func (g *sxGen) tickOp() (string, string) {
 	// boundary instants: aim at the remaining idle time of a live idle session, -1/0/+1 ms
 	if g.timeout > 0 && g.rng.Intn(100) < 55 {
@@ -690,6 +828,16 @@ func (g *sxGen) next() (op string, tags []string) {
 		if nlive == 0 && g.rng.Intn(100) < 65 {
 			// nothing to address: open a session (mostly as an authenticated user)
 			return fmt.Sprintf("post - %s init", sxUsers[g.rng.Intn(4)]), []string{"post-init", "id-noid"}
+		}
+	}
+	if g.es {
+		// while Open fails no session can be created or called: do not stay there for long
+		p := 9
+		if strings.ContainsAny(g.flags, "oO") {
+			p = 25
+		}
+		if g.rng.Intn(100) < p {
+			return g.faultOp()
 		}
 	}
 	if !g.stateless && g.rng.Intn(100) < 4 {
@@ -816,12 +964,12 @@ func sxRunCase(t *testing.T, out *verifOut, cs string, ops []string, gen *sxGen,
 					out.line(cs, "end", w.finish(), "end")
 				}
 				ms, _ := strconv.Atoi(toks[2])
-				w = newSxWorld(toks[1] == "stateless", ms)
+				w = newSxWorld(toks[1] == "stateless", ms, len(toks) > 3 && toks[3] == "es")
 				out.line(cs, op, "ok", "reset")
 				return
 			}
 			if w == nil {
-				w = newSxWorld(false, 100)
+				w = newSxWorld(false, 100, false)
 				out.line(cs, "reset stateful 100", "ok", "reset")
 			}
 			obs := w.apply(toks)
@@ -838,6 +986,8 @@ func sxRunCase(t *testing.T, out *verifOut, cs string, ops []string, gen *sxGen,
 			var tags []string
 			if f := strings.Fields(op); gen != nil && len(f) == 4 && f[0] == "post" {
 				tags = []string{"post-" + f[3], "id-noid"}
+			} else if gen != nil && len(f) == 2 && f[0] == "fault" {
+				tags = sxFaultTags(f[1])
 			}
 			step(op, tags)
 		}
@@ -895,12 +1045,23 @@ func TestVerifSessions(t *testing.T) {
 		case r < 20:
 			g.timeout = 0
 		}
-		ops := []string{fmt.Sprintf("reset %s %d", mode, g.timeout)}
+		reset := fmt.Sprintf("reset %s %d", mode, g.timeout)
+		if rng.Intn(100) < 50 {
+			// with an EventStore: the collaborator whose failures the `fault` ops script
+			g.es = true
+			reset += " es"
+		}
+		ops := []string{reset}
 		if !g.stateless {
 			// most histories start with one to three sessions of different users
 			for i, n := 0, rng.Intn(4); i < n; i++ {
 				ops = append(ops, fmt.Sprintf("post - %s init", sxUsers[rng.Intn(4)]))
 			}
+		}
+		if g.es && rng.Intn(100) < 35 {
+			// the store is already failing when the first sessions end
+			op, _ := g.faultOp()
+			ops = append(ops, op)
 		}
 		sxRunCase(t, out, fmt.Sprintf("g%d", c), ops, g, 10+rng.Intn(28), "")
 	}
